@@ -1,6 +1,7 @@
 package lhsim
 
 import (
+	"fmt"
 	"sort"
 	"testing/synctest"
 	"time"
@@ -112,7 +113,7 @@ func (c *workerCtrl) autoStep() bool {
 			x = defaultChoice(c.pending)
 		}
 		c.n.w.ev("worker-choice n%d pending=%+v -> %d", c.n.idx, c.pending, x)
-		c.n.noteWorkerChoice(x)
+		c.n.noteWorkerChoice(x, c.pending.Messages)
 		c.choice <- x
 		return true
 	}
@@ -287,11 +288,30 @@ func (w *World) syncClock() {
 	w.now = time.Since(w.start)
 }
 
+// harnessClock: syncClock on the harness goroutine, at rest. The bubble's clock only moves when every goroutine is
+// durably blocked, and the harness goroutine sleeping is the only intended cause; anything else means the harness
+// itself got parked somewhere (e.g. inside a fake's gate) and the run is not what the tape says.
+func (w *World) harnessClock() {
+	w.syncClock()
+	if w.now != w.slept {
+		panic(harnessPanic(fmt.Sprintf("the simulated clock moved without the harness: at %v, harness slept %v", w.now, w.slept)))
+	}
+}
+
+// sleep is the only way simulated time advances.
+func (w *World) sleep(d time.Duration) {
+	if d <= 0 {
+		return
+	}
+	w.slept += d
+	time.Sleep(d)
+}
+
 // the bubble's clock starts in the year 2000 and is a 64-bit nanosecond count: keep well inside its range
 const maxSimTime = 150 * 365 * 24 * time.Hour
 
 func (w *World) advanceTo(at time.Duration) {
-	w.syncClock()
+	w.harnessClock()
 	if at > maxSimTime {
 		w.timeUp = true
 		w.probe("sim-time-exhausted")
@@ -321,10 +341,10 @@ func (w *World) advanceTo(at time.Duration) {
 			wake.wakeAt = 0
 		}
 		if next > w.now {
-			time.Sleep(next - w.now)
+			w.sleep(next - w.now)
 		}
 		w.quiesce()
-		w.syncClock()
+		w.harnessClock()
 		if wake == nil && real == nil {
 			break
 		}
@@ -336,7 +356,24 @@ func (w *World) advanceTo(at time.Duration) {
 	}
 }
 
-func (n *Node) noteWorkerChoice(x verifhook.Choice) {
+// workerQueueCap is the capacity of the worker's message queue as the hook reports it (pending.Messages is its length).
+const workerQueueCap = 1000
+
+func (n *Node) noteWorkerChoice(x verifhook.Choice, queued int) {
+	if queued != len(n.inbox) && !n.inboxUnknown {
+		// the harness's model of the queue disagrees with the queue length the hook reports: positions derived
+		// from it would be guesses, so the node's current message is unknown from here on (oracles abstain)
+		n.inboxUnknown = true
+		n.w.probe("model-inbox-unknown")
+		n.w.ev("inbox model of n%d (%d) disagrees with the queue (%d): current message unknown from here", n.idx, len(n.inbox), queued)
+	}
+	if n.inboxUnknown {
+		n.curMsg = nil
+		if x == verifhook.ChooseMessage && len(n.inbox) > 0 {
+			n.inbox = n.inbox[1:]
+		}
+		return
+	}
 	switch x {
 	case verifhook.ChooseMessage:
 		if len(n.inbox) > 0 {
